@@ -32,7 +32,7 @@ var RepoDir = func() string {
 // experiments (VERIF_REPO set), whose output must not clobber real evidence.
 func OutDir() string {
 	if os.Getenv("VERIF_REPO") != "" {
-		d := filepath.Join(os.TempDir(), "verif-mut-out")
+		d := filepath.Join(os.TempDir(), "verif-mut-out-"+filepath.Base(RepoDir))
 		_ = os.MkdirAll(d, 0o755)
 		return d
 	}
